@@ -245,7 +245,7 @@ def main(argv=None):
             try:
                 budget = 300 if args.tier == "quick" else 1500
                 small, _ = shrink(clauses[name], case, sig, budget=budget,
-                                  valid=getattr(mod, "VALID", {}).get(name))
+                                  valid=getattr(mod, "VALID", {}).get(name, getattr(mod, "VALID_DEFAULT", None)))
             except Exception:  # noqa: BLE001
                 small = case
             from .core import run_case
